@@ -731,6 +731,12 @@ impl Linter {
         files
     }
 
+    /// Verification hook (only with `--cfg sqruff_verif`): the private path expansion of `lint_paths`.
+    #[cfg(sqruff_verif)]
+    pub fn verif_paths_from_path(&self, path: PathBuf) -> Vec<String> {
+        self.paths_from_path(path, None, None, None, None)
+    }
+
     pub fn config(&self) -> &FluffConfig {
         &self.config
     }
